@@ -49,11 +49,24 @@ func gcstressMain(args []string) {
 					case 8:
 						n.RPopLPush("lk0", "lk9") // one direction only: opposite moves deadlock (a listed C06 finding)
 					case 9:
-						if rnd.Intn(8) == 0 {
+						switch rnd.Intn(16) {
+						case 0:
 							n.VerifGC()
-						} else if rnd.Intn(8) == 0 {
+						case 1:
 							n.VerifFlush()
-						} else {
+						case 2:
+							n.Keys("*") // walks the index under the index lock
+						case 3:
+							n.Scan(0, "*", 10, 0)
+						case 4:
+							n.Keyspace()
+						case 5:
+							n.RandomKey()
+						case 6:
+							n.Exists("l"+k, "s"+k, "l"+k) // the same key twice in one command
+						case 7:
+							n.ExpirePX("s"+k, 1) // the next write re-creates the record in place, gc unlinks it
+						default:
 							n.LLen("l" + k)
 						}
 					}
